@@ -31,7 +31,7 @@ impl Socket for Stream {
     fn split(self) -> (Self::ReadHalf, Self::WriteHalf) {
         let stream = Arc::new(self.0);
 
-        (ReadHalf(Arc::clone(&stream)), WriteHalf(stream))
+        (ReadHalf(Arc::clone(&stream)), WriteHalf(stream, 0))
     }
 }
 
@@ -57,18 +57,28 @@ impl socket::ReadHalf for ReadHalf {
 
 /// The [`WriteHalf`] implementation using Unix Domain Sockets.
 #[derive(Debug)]
-pub struct WriteHalf(Arc<Async<StdUnixStream>>);
+pub struct WriteHalf(
+    Arc<Async<StdUnixStream>>,
+    // How much of the buffer being written is already out. This is kept here and not in the
+    // future, so that a write that got cancelled half way is resumed (and not restarted) when the
+    // connection tries again.
+    usize,
+);
 
 impl socket::WriteHalf for WriteHalf {
     async fn write(&mut self, buf: &[u8]) -> Result<()> {
         use futures_lite::io::AsyncWriteExt;
 
-        let mut pos = 0;
-
-        while pos < buf.len() {
-            let n = AsyncWriteExt::write(&mut &*self.0, &buf[pos..]).await?;
-            pos += n;
+        while self.1 < buf.len() {
+            match AsyncWriteExt::write(&mut &*self.0, &buf[self.1..]).await {
+                Ok(n) => self.1 += n,
+                Err(e) => {
+                    self.1 = 0;
+                    return Err(e.into());
+                }
+            }
         }
+        self.1 = 0;
 
         Ok(())
     }
